@@ -26,6 +26,8 @@
 package main
 
 import (
+	"regexp"
+	"bytes"
 	"encoding/json"
 	"fmt"
 	types "github.com/cosmos72/gomacro/go/types"
@@ -37,6 +39,7 @@ import (
 	"strings"
 	"time"
 
+	"github.com/cosmos72/gomacro/base"
 	"github.com/cosmos72/gomacro/fast"
 	etoken "github.com/cosmos72/gomacro/go/etoken"
 	xr "github.com/cosmos72/gomacro/xreflect"
@@ -129,6 +132,14 @@ func (s *Session) expand(src string, m *Mode, x *expCtx) string {
 		case strings.HasPrefix(src[i:], "%F%"):
 			sb.WriteString(x.fn)
 			i += 3
+		case c == '&' && i+1 < len(src) && isIdent(src[i+1]) && strings.IndexByte(src[i+1:], '&') > 0 && findUnit(src[i+1:i+1+strings.IndexByte(src[i+1:], '&')]) != nil:
+			j := strings.IndexByte(src[i+1:], '&') + i + 1
+			name := src[i+1 : j]
+			if m.rec != nil {
+				*m.rec = append(*m.rec, &Ty{K: "plain", Name: name})
+			}
+			sb.WriteString(name)
+			i = j + 1
 		case c == '#' && i+1 < len(src) && src[i+1] >= '0' && src[i+1] <= '9':
 			j := strings.IndexByte(src[i+1:], '#') + i + 1
 			body := src[i+1 : j]
@@ -377,6 +388,7 @@ type harness struct {
 	oracle  []*oraclePkg
 	sites   []siteRec
 	caseIdx int
+	casesE  []string // cases of the "late" sessions, for C35.FailModel (written as cases_fail_NNN.v)
 }
 
 type probeRec struct {
@@ -405,6 +417,11 @@ type Session struct {
 	dirty bool
 	pkg   *oraclePkg
 	hist  []Op
+	// "late" session: the late units are declared only after a consumer failed for want of them (FailModel)
+	late     bool
+	declared map[string]bool // late units (plain and generic) evaluated so far
+	avail0   []bool          // model: initial availability of every declaration
+	out      *bytes.Buffer   // Stdout of the interpreter (debug lines of OptDebugGenerics)
 }
 
 const sessionDecls = `type S1 struct { A int; B string }
@@ -417,9 +434,12 @@ func (m MyInt) Name() string { return "MyInt" }
 func (m OtherInt) Name() string { return "OtherInt" }
 const K0, K1, K2, K3, K4 = 0, 1, 2, 3, 4`
 
-func (h *harness) newSession(id int, r *vh.Rng) *Session {
+func (h *harness) newSession(id int, r *vh.Rng, late bool) *Session {
 	s := &Session{h: h, id: id, named: map[string]*Ty{}, tmpl: map[string]*Template{}, env: newCoqEnv(), pn: map[string][]string{},
-		seen: map[string]bool{}, keys: map[string]xr.Key{}, typs: map[string]xr.Type{}, first: map[string]int{}}
+		seen: map[string]bool{}, keys: map[string]xr.Key{}, typs: map[string]xr.Type{}, first: map[string]int{},
+		late: late, declared: map[string]bool{}, out: &bytes.Buffer{}}
+	s.env.late = late
+	s.named["LateRec"] = parseTy("struct { N int; S string }")
 	s.named["S1"] = parseTy("struct { A int; B string }")
 	s.named["S2"] = parseTy("struct { X float64; Y []int }")
 	s.named["MyInt"] = Basic("int")
@@ -428,17 +448,28 @@ func (h *harness) newSession(id int, r *vh.Rng) *Session {
 	s.sp = &Specs{sess: s, have: map[string]bool{}}
 	s.ir = fast.New()
 	s.ir.Comp.Globals.Stderr = io.Discard
-	s.ir.Comp.Globals.Stdout = io.Discard
+	s.ir.Comp.Globals.Stdout = s.out
 	s.pkg = &oraclePkg{name: fmt.Sprintf("s%d", id), sites: map[int]string{}}
 	h.oracle = append(h.oracle, s.pkg)
 	s.mustEval(`import "fmt"`)
-	for _, d := range strings.Split(sessionDecls, "\n") {
+	for _, d := range strings.Split(sessionDecls+"\n"+globalDecls, "\n") {
 		s.mustEval(d)
 	}
-	// the catalogue, in random order, with random parameter names; generic ids of the model = catalogue order
+	// the catalogue, in random order, with random parameter names; generic ids of the model = catalogue order,
+	// followed by the plain late units
 	for _, t := range h.cat {
 		s.tmpl[t.Name] = t
 		s.env.id(s.env.gens, t.Name)
+		s.avail0 = append(s.avail0, !(late && t.Late))
+	}
+	for _, u := range lateUnits {
+		s.env.id(s.env.gens, u.Name)
+		s.env.plain[u.Name] = true
+		s.avail0 = append(s.avail0, false)
+		if !late {
+			s.mustEval(u.Src)
+			s.declared[u.Name] = true
+		}
 	}
 	order := make([]int, len(h.cat))
 	for i := range order {
@@ -455,10 +486,45 @@ func (h *harness) newSession(id int, r *vh.Rng) *Session {
 		st := styles[r.Intn(len(styles))]
 		pn := st[:t.NP]
 		s.pn[t.Name] = pn
-		src := s.declSrc(t, &Mode{kind: mGen, pnames: pn}, t.Name+"#["+strings.Join(pn, ", ")+"]")
-		s.mustEval(src)
+		if late && t.Late {
+			continue // declared by declareUnit once a consumer has failed
+		}
+		s.mustEval(s.genericDecl(t))
+		if t.Late {
+			s.declared[t.Name] = true
+		}
 	}
 	return s
+}
+
+func (s *Session) genericDecl(t *Template) string {
+	pn := s.pn[t.Name]
+	return s.declSrc(t, &Mode{kind: mGen, pnames: pn}, t.Name+"#["+strings.Join(pn, ", ")+"]")
+}
+
+// pending: the late units named by the body of t that are not declared yet
+func (s *Session) pending(t *Template) []string {
+	var p []string
+	for _, n := range t.Needs {
+		if !s.declared[n] {
+			p = append(p, n)
+		}
+	}
+	return p
+}
+
+// declareUnit evaluates the declaration of a late unit (plain declaration or Late generic); model: EDeclare
+func (s *Session) declareUnit(n string) {
+	if u := findUnit(n); u != nil {
+		s.mustEval(u.Src)
+	} else {
+		s.mustEval(s.genericDecl(s.tmpl[n]))
+	}
+	s.declared[n] = true
+	sz, _ := s.sizes()
+	s.cops = append(s.cops, fmt.Sprintf("EDeclare %d", s.env.gens[n]))
+	s.cobs = append(s.cobs, fmt.Sprintf("mkObs %s %s", coqSizes(sz), vh.CoqZ(-4)))
+	s.nops++
 }
 
 // model declarations: kind, parameter names, declared type, generic references of a function, in source order
@@ -479,6 +545,11 @@ func (s *Session) coqDecls() string {
 			ds = append(ds, fmt.Sprintf("mkDecl 1 %s %s []", vh.CoqList(ids, "N"), s.env.ty(t.Under, pn)))
 		default:
 			ds = append(ds, fmt.Sprintf("mkDecl 0 %s %s []", vh.CoqList(ids, "N"), s.env.ty(t.Under, pn)))
+		}
+	}
+	if s.late {
+		for range lateUnits {
+			ds = append(ds, "mkDecl 3 [] (TyName 0%N) []")
 		}
 	}
 	return vh.CoqList(ds, "decl")
@@ -540,7 +611,15 @@ func (s *Session) sizes() ([]int, map[string]map[interface{}]*fast.GenericFuncIn
 				n = len(g.Instances)
 			}
 		}
+		if n < 0 && s.late {
+			n = 0 // a Late generic that is not declared yet
+		}
 		sz = append(sz, n)
+	}
+	if s.late {
+		for range lateUnits {
+			sz = append(sz, 0)
+		}
 	}
 	return sz, ptrs
 }
@@ -556,13 +635,80 @@ func coqSizes(sz []int) string {
 // record one evaluated source in the model history
 func (s *Session) record(refs []*Ty, probe bool, first int) {
 	sz, _ := s.sizes()
-	s.cops = append(s.cops, fmt.Sprintf("mkOp %s %s", s.env.tyList(refs, nil), vh.CoqBool(probe)))
+	if s.late {
+		s.cops = append(s.cops, fmt.Sprintf("EEval %s %s", s.env.tyList(refs, nil), vh.CoqBool(probe)))
+	} else {
+		s.cops = append(s.cops, fmt.Sprintf("mkOp %s %s", s.env.tyList(refs, nil), vh.CoqBool(probe)))
+	}
 	s.cobs = append(s.cobs, fmt.Sprintf("mkObs %s %s", coqSizes(sz), vh.CoqZ(int64(first))))
 	s.nops++
 }
 
+// recordFail: an evaluated source whose compilation failed inside an instantiation (late sessions only: FailModel)
+func (s *Session) recordFail(refs []*Ty) {
+	sz, _ := s.sizes()
+	s.cops = append(s.cops, fmt.Sprintf("EEval %s false", s.env.tyList(refs, nil)))
+	s.cobs = append(s.cobs, fmt.Sprintf("mkObs %s %s", coqSizes(sz), vh.CoqZ(-3)))
+	s.nops++
+}
+
+// layers of a "nest:" scope: the instantiation is named below a function body and 0..5 further constructs, each of
+// which may or may not own a run-time environment (blocks, loops, if/switch with an init statement, closures - with
+// and without locals or parameters).  The first layer is the function: fn (no parameters) or fnP (parameters).
+var layerKinds = []string{"blk", "blkL", "for", "forL", "range", "if", "sw", "cl", "clL", "clP"}
+
+func genLayers(r *vh.Rng, k int) string {
+	l := []string{"fn"}
+	if r.Chance(1, 3) {
+		l[0] = "fnP"
+	}
+	for i := 0; i < k; i++ {
+		l = append(l, layerKinds[r.Intn(len(layerKinds))])
+	}
+	return "nest:" + strings.Join(l, ",")
+}
+
+func wrapNest(n int, layers []string, e string) (decl, call string) {
+	f := fmt.Sprintf("op%d", n)
+	body := "r = " + e
+	for i := len(layers) - 1; i >= 1; i-- {
+		v := fmt.Sprintf("%d_%d", n, i)
+		switch layers[i] {
+		case "blk":
+			body = "{ " + body + " }"
+		case "blkL":
+			body = fmt.Sprintf("{ pad%s := %d; _ = pad%s; %s }", v, i, v, body)
+		case "for":
+			body = fmt.Sprintf("for i%s := 0; i%s < 2; i%s++ { %s }", v, v, v, body)
+		case "forL":
+			body = fmt.Sprintf("for i%s := 0; i%s < 2; i%s++ { k%s := i%s * 3; _ = k%s; %s }", v, v, v, v, v, v, body)
+		case "range":
+			body = fmt.Sprintf("for _, e%s := range []int{3, 4} { _ = e%s; %s }", v, v, body)
+		case "if":
+			body = fmt.Sprintf("if c%s := %d; c%s >= 0 { %s }", v, i, v, body)
+		case "sw":
+			body = fmt.Sprintf("switch t%s := %d; { case t%s >= 0: %s }", v, i, v, body)
+		case "cl":
+			body = "func() { " + body + " }()"
+		case "clL":
+			body = fmt.Sprintf("func() { w%s := %d; _ = w%s; %s }()", v, i, v, body)
+		case "clP":
+			body = fmt.Sprintf("func(a%s int) { _ = a%s; %s }(%d)", v, v, body, i)
+		default:
+			panic("unknown layer " + layers[i])
+		}
+	}
+	if layers[0] == "fnP" {
+		return fmt.Sprintf("func %s(a int, b string) string { var r string; %s; return r }", f, body), f + `(1, "q")`
+	}
+	return fmt.Sprintf("func %s() string { var r string; %s; return r }", f, body), f + "()"
+}
+
 func wrapScope(scope string, n int, e string, local string) (decl, call string) {
 	f := fmt.Sprintf("op%d", n)
+	if strings.HasPrefix(scope, "nest:") {
+		return wrapNest(n, strings.Split(scope[5:], ","), e)
+	}
 	switch scope {
 	case "func":
 		return fmt.Sprintf("func %s() string { return %s }", f, e), f + "()"
@@ -584,7 +730,9 @@ func wrapScope(scope string, n int, e string, local string) (decl, call string) 
 	return "", "(" + e + ")"
 }
 
-var scopes = []string{"top", "top", "func", "closure1", "closure2", "closure3", "block", "goroutine", "method", "localtype", "infer"}
+var scopes = []string{"top", "top", "func", "closure1", "closure2", "closure3", "block", "goroutine", "method", "localtype", "infer", "nest", "nest", "nest"}
+
+var reUpn = regexp.MustCompile(`upn = (\d+)`)
 
 func (s *Session) fail(key, what string, in interface{}, got, want interface{}) {
 	s.h.rep.Fail(vh.Failure{Key: key, What: what, Input: in, Got: got, Want: want})
@@ -634,6 +782,12 @@ func (s *Session) runOp(r *vh.Rng, forced *Op) {
 	if scope == "infer" && !t.Infer {
 		scope = "top"
 	}
+	if scope == "nest" {
+		scope = genLayers(r, r.Intn(6))
+	}
+	if t.Late && !s.declared[t.Name] {
+		s.declareUnit(t.Name) // a Late generic picked directly: declared now
+	}
 	if scope == "localtype" {
 		// a type declared inside the function body becomes one of the "any" arguments
 		pos := -1
@@ -658,7 +812,20 @@ func (s *Session) runOp(r *vh.Rng, forced *Op) {
 	op := Op{N: n, Tmpl: t.Name, Args: canonList(args), Scope: scope, Seed: seed, inst: inst, local: local}
 	key := fmt.Sprintf("C35:%s:%s", cinst, scope)
 	h.wd.Beat(map[string]interface{}{"session": s.id, "op": op})
-	h.rep.Dist("scope:" + scope)
+	if pend := s.pending(t); len(pend) > 0 {
+		s.failFirst(t, args, inst, scope, n, pend)
+	}
+	if strings.HasPrefix(scope, "nest:") {
+		h.rep.Dist(fmt.Sprintf("scope:nest(%d layers)", strings.Count(scope, ",")))
+		for _, l := range strings.Split(scope[5:], ",") {
+			h.rep.Dist("layer:" + l)
+		}
+	} else {
+		h.rep.Dist("scope:" + scope)
+	}
+	if t.Global {
+		h.rep.Dist("generic-uses-package-level-state")
+	}
 	h.rep.Dist("generic:" + t.Name)
 	for _, a := range args {
 		h.rep.Dist("arg:" + a.K)
@@ -687,6 +854,13 @@ func (s *Session) runOp(r *vh.Rng, forced *Op) {
 	szBefore, ptrBefore := s.sizes()
 	var rGen evalRes
 	compiled := true
+	measure := t.Kind == "func" && (t.Global || strings.HasPrefix(scope, "nest:"))
+	if measure {
+		// OptDebugGenerics makes Comp.genericFunc print the number of run-time environments between the place that
+		// names the instance and the scope that declares the generic ("upn"): measured, for the evidence
+		s.out.Reset()
+		s.ir.Comp.Globals.Options |= base.OptDebugGenerics
+	}
 	if decl != "" {
 		rGen = s.eval(decl)
 		compiled = rGen.compiled
@@ -694,6 +868,20 @@ func (s *Session) runOp(r *vh.Rng, forced *Op) {
 	if rGen.err == "" {
 		rGen = s.eval(call)
 		compiled = rGen.compiled
+	}
+	if measure {
+		s.ir.Comp.Globals.Options &^= base.OptDebugGenerics
+		for _, line := range strings.Split(s.out.String(), "\n") {
+			if strings.Contains(line, "generic function: "+t.Name+"#[") {
+				if m := reUpn.FindStringSubmatch(line); m != nil {
+					h.rep.Dist("env-depth-below-declaration(upn):" + m[1])
+					if t.Global {
+						h.rep.Dist("env-depth(upn) of generics using package-level state:" + m[1])
+					}
+				}
+			}
+		}
+		s.out.Reset()
 	}
 	szAfter, ptrAfter := s.sizes()
 	s.hist = append(s.hist, op)
@@ -822,6 +1010,83 @@ func (s *Session) runOp(r *vh.Rng, forced *Op) {
 	if t.Kind != "func" && local == nil && rGen.err == "" {
 		s.probe(r, t, inst, key, in)
 	}
+}
+
+// failFirst: the body of t names late units that are not declared yet.  The instantiation must fail to compile, like
+// its textual specialisation; the failed attempt must leave the instance caches of t (and of every other generic still
+// waiting for a late unit) as they were; then the missing units are declared and the caller goes on with the ordinary
+// operation: the same (generic, arguments) must now compile and behave like its textual specialisation.
+func (s *Session) failFirst(t *Template, args []*Ty, inst *Ty, scope string, n int, pend []string) {
+	h := s.h
+	var refs []*Ty
+	mg := &Mode{kind: mGen, args: args, rec: &refs, spell: true}
+	var e string
+	if t.Kind == "func" {
+		e = "fmt.Sprint(" + mg.ty(inst) + " == nil)"
+	} else {
+		e = "fmt.Sprint(new(" + mg.ty(inst) + ") == nil)"
+	}
+	sc := scope
+	if sc == "infer" || sc == "localtype" {
+		sc = "func"
+	}
+	decl, call := wrapScope(sc, 100000+n, e, "")
+	cinst := canon(inst)
+	key := fmt.Sprintf("C35:%s:%s:first-attempt-before-%s", cinst, sc, strings.Join(pend, "+"))
+	in := map[string]interface{}{"session": s.id, "seed": h.a.Seed, "generic": t.Name, "args": canonList(args), "scope": sc,
+		"src": decl + "\n" + call, "not_yet_declared": pend, "history": s.hist}
+	h.rep.Dist("late:first-attempt")
+	szBefore, _ := s.sizes()
+	var res evalRes
+	if decl != "" {
+		res = s.eval(decl)
+	}
+	if decl == "" || res.compiled && res.err == "" {
+		res = s.eval(call)
+	}
+	szAfter, _ := s.sizes()
+	if res.compiled {
+		s.fail(key, "an instantiation whose body names an undeclared identifier compiled", in, res.out+" "+res.err, "compile error")
+		s.record(refs, false, -1)
+	} else {
+		s.recordFail(refs)
+		h.rep.Count(cinst+"|"+sc+"|first-attempt", true)
+	}
+	for i, u := range h.cat {
+		if szAfter[i] < szBefore[i] {
+			s.fail(key, "a failed instantiation removed cached instances of "+u.Name, in, szAfter[i], szBefore[i])
+		}
+		if len(s.pending(u)) > 0 && szAfter[i] != szBefore[i] {
+			s.fail(key, "a failed instantiation left an entry in the instance cache of "+u.Name+" (its body cannot compile yet)", in, szAfter[i], szBefore[i])
+		}
+	}
+	// the textual specialisation fails to compile as well
+	if !t.NoL1 {
+		var refs1 []*Ty
+		fresh := fmt.Sprintf("%s_l1f_%d", t.Name, n)
+		d1 := s.declSrc(t, &Mode{kind: mL1, args: args, self: t.Name, selfName: fresh, rec: &refs1}, fresh)
+		r1 := s.eval(d1)
+		if r1.compiled != res.compiled {
+			s.fail(key, "instance and textual specialisation (L1) differ: one compiles, the other does not", in, fmt.Sprint("instance compiled=", res.compiled, " ", res.err), fmt.Sprint("L1 compiled=", r1.compiled, " ", r1.err, "\n", d1))
+		}
+		if r1.compiled {
+			s.record(refs1, false, -1)
+		} else {
+			s.recordFail(refs1)
+		}
+	}
+	for _, u := range pend {
+		s.declareUnit(u)
+	}
+}
+
+// forcedOp: an operation on template t in the given scope with freshly generated arguments
+func (s *Session) forcedOp(r *vh.Rng, t *Template, scope string) *Op {
+	var args []*Ty
+	for _, c := range t.Classes {
+		args = append(args, s.genArg(c, r, 0))
+	}
+	return &Op{Tmpl: t.Name, Scope: scope, Seed: r.U64() >> 16, inst: Inst(t.Name, args...)}
 }
 
 func hasClass(t *Template, c string) bool {
@@ -972,7 +1237,15 @@ func (s *Session) finish() {
 		return
 	}
 	s.h.rep.Dist("session:in-correspondence")
-	s.h.cw.Add(fmt.Sprintf("mkCase %d\n  %s\n  %s\n  %s", s.h.caseIdx, s.coqDecls(), vh.CoqList(s.cops, "op"), vh.CoqList(s.cobs, "obs")))
+	if s.late {
+		var av []string
+		for _, b := range s.avail0 {
+			av = append(av, vh.CoqBool(b))
+		}
+		s.h.casesE = append(s.h.casesE, fmt.Sprintf("mkCaseE %d\n  %s\n  %s\n  %s\n  %s", s.h.caseIdx, s.coqDecls(), vh.CoqList(av, "bool"), vh.CoqList(s.cops, "opE"), vh.CoqList(s.cobs, "obs")))
+	} else {
+		s.h.cw.Add(fmt.Sprintf("mkCase %d\n  %s\n  %s\n  %s", s.h.caseIdx, s.coqDecls(), vh.CoqList(s.cops, "op"), vh.CoqList(s.cobs, "obs")))
+	}
 	s.h.rep.CaseInput(s.h.caseIdx, map[string]interface{}{"session": s.id, "history": s.hist})
 	s.h.caseIdx++
 }
@@ -1094,7 +1367,7 @@ func main() {
 			rep.Dist("corpus:skipped(needs C35-1 fix)")
 			continue
 		}
-		s := h.newSession(id, rng.Fork())
+		s := h.newSession(id, rng.Fork(), false)
 		r := rng.Fork()
 		for i := range ops {
 			s.runOp(r, &ops[i])
@@ -1103,16 +1376,75 @@ func main() {
 		rep.Dist("corpus:replayed")
 		id++
 	}
+	var globals, consumers []*Template
+	for _, t := range h.cat {
+		if t.Global {
+			globals = append(globals, t)
+		}
+		if len(t.Needs) > 0 {
+			consumers = append(consumers, t)
+		}
+	}
 	for k := 0; k < nSess; k++ {
-		s := h.newSession(id, rng.Fork())
+		// every second session is "late": the late units are declared only after a consumer has failed for want of them
+		late := k%2 == 1
+		s := h.newSession(id, rng.Fork(), late)
 		r := rng.Fork()
+		if late {
+			rep.Dist("session:late-declarations")
+		}
+		// directed operations: (a) depth sweep - a generic whose body uses package-level state, named below 0..5 nested
+		// constructs of a function body (and at top level); (b) late sessions: three consumers of late units
+		sweep := []int{-1, 0, 1, 2, 3, 4, 5}
+		for i := len(sweep) - 1; i > 0; i-- {
+			j := r.Intn(i + 1)
+			sweep[i], sweep[j] = sweep[j], sweep[i]
+		}
+		lateAt := map[int]bool{}
+		if late {
+			for len(lateAt) < 3 {
+				lateAt[r.Intn(nOps)] = true
+			}
+		}
 		for i := 0; i < nOps; i++ {
+			if i%2 == 0 && len(sweep) > 0 {
+				d := sweep[0]
+				sweep = sweep[1:]
+				sc := "top"
+				if d >= 0 {
+					sc = genLayers(r, d)
+				}
+				s.runOp(r, s.forcedOp(r, globals[r.Intn(len(globals))], sc))
+			}
+			if lateAt[i] {
+				sc := scopes[r.Intn(len(scopes))]
+				if sc == "nest" {
+					sc = genLayers(r, r.Intn(6))
+				}
+				if sc == "localtype" || sc == "infer" {
+					sc = "func"
+				}
+				s.runOp(r, s.forcedOp(r, consumers[r.Intn(len(consumers))], sc))
+			}
 			s.runOp(r, nil)
 		}
 		s.finish()
 		id++
 	}
 	h.cw.Close()
+	// cases of the late sessions: evaluated by C35.FailModel
+	for i := 0; i*6 < len(h.casesE); i++ {
+		hi := (i + 1) * 6
+		if hi > len(h.casesE) {
+			hi = len(h.casesE)
+		}
+		txt := "From Coq Require Import List NArith ZArith.\nFrom Verif Require Import C35.Model C35.FailModel.\nImport ListNotations.\nOpen Scope Z_scope.\n" +
+			"Definition cases : list caseE := [\n " + strings.Join(h.casesE[i*6:hi], ";\n ") + "\n].\n" +
+			"Definition verif_mismatches : list Z := Eval vm_compute in mismatchesE cases.\nPrint verif_mismatches.\n"
+		if err := os.WriteFile(a.Path(fmt.Sprintf("cases_fail_%03d.v", i)), []byte(txt), 0o644); err != nil {
+			panic(err)
+		}
+	}
 	h.wd.Beat("oracle build")
 
 	// (2) compiled Go
